@@ -53,8 +53,29 @@ def config_term(config):
 OPS = {"acq": "OAcq", "rel": "ORel", "append": "OAppend", "read": "ORead", "remove": "ORemove"}
 
 
+def effective_perm(trace, k):
+    """The order in which the collector of glob entry k actually visits the listed node files: the node
+    locks it acquires until it releases the processed lock, then whatever else glob had listed (a round
+    cut short by an exception).  The model's Glob step takes this order; it only accepts it if it
+    enumerates the existing node files exactly once each."""
+    a, _, _, listed = trace[k]
+    seen = []
+    for b, kind, fid, _ in trace[k + 1:]:
+        if b != a:
+            continue
+        if kind == "rel" and fid == "P":
+            break
+        if kind == "acq" and isinstance(fid, int):
+            seen.append(fid)
+    return seen + [x for x in (listed or []) if x not in seen]
+
+
 def schedule_term(trace):
-    return clist([f"({cnat(t[0])}, {clist([cN(x) for x in (t[3] or [])])})" for t in trace])
+    items = []
+    for k, t in enumerate(trace):
+        perm = effective_perm(trace, k) if t[1] == "glob" else []
+        items.append(f"({cnat(t[0])}, {clist([cN(x) for x in perm])})")
+    return clist(items)
 
 
 def ops_term(trace):
@@ -472,8 +493,12 @@ def replay(path):
         print(json.dumps(obj, indent=1)[:6000])
         return 0
     logging.disable(logging.CRITICAL)
-    res = rd.run_scenario(obj["config"], rd.chooser_replay(obj["schedule"]), glob_order=list(obj.get("glob_orders") or []))
+    diverged = []
+    res = rd.run_scenario(obj["config"], rd.chooser_replay(obj["schedule"], diverged), glob_order=list(obj.get("glob_orders") or []))
     problems = rd.judge(obj["config"], res)
+    if diverged:
+        print("the recorded interleaving is not executable on this tree: at step(s) %s the recorded actor's operation "
+              "is not enabled (e.g. the lock is held); continued with the first enabled actor" % diverged[:5])
     print("config:", json.dumps(obj["config"]))
     print("schedule:", res["schedule"])
     print("trace:", res["trace"])
